@@ -490,8 +490,8 @@ fn run(sh: &mut Shard) {
     let tier = sh.cfg.tier;
     // the interpreter's own command-line program, unoptimised and release, on the long-run ladders
     crate::cliprof::run_family(sh, "cli-profiles");
-    // the interactive prompt itself: no line makes it die, and it ends when its input ends
-    super::c17::repl_sessions(sh, "repl", None);
+    // the interactive prompt itself: no line makes it die, and it ends when its input ends (what it shows is C17's)
+    super::c17::repl_sessions(sh, "repl", None, false);
     let (lmax, nmax) = if tier == Tier::Quick { (4, 3) } else { (5, 4) };
     for len in 1..=nmax {
         strings(sh, "text", CHARS, len, "", 50_000);
@@ -515,7 +515,7 @@ fn replay(sh: &mut Shard, case: &Value) {
     }
     if let Some(a) = case["repl_session"].as_array() {
         let lines: Vec<String> = a.iter().filter_map(|x| x.as_str().map(|s| s.to_string())).collect();
-        super::c17::repl_sessions(sh, "repl", Some(&lines));
+        super::c17::repl_sessions(sh, "repl", Some(&lines), false);
         return;
     }
     sh.mine();
